@@ -318,7 +318,8 @@ def gen(ctx, emit):
             zs = [1, 2, n - 1, n, n + 1, 2 * n if 2 * n < two256 else two256 - 2, two256 - 1]
             for d in ds:
                 for z in zs:
-                    emit("sign %s %d %d" % (tok, d, z))
+                    if d == 1 or z in (1, n, two256 - 1) or ctx.thorough:
+                        emit("sign %s %d %d" % (tok, d, z))
                     emit("rfc6979 %s %d %d" % (tok, d, z))
             for d, z in ((0, 1), (n, 1), (-1, 1), (1, 0), (1, two256), (1, -1), (two256, 5)):  # outside the quantifier: raise as coded
                 emit("sign %s %d %d" % (tok, d, z))
@@ -361,6 +362,38 @@ def gen(ctx, emit):
                 emit("keyverify %s %s %d %d %d" % (tok, Q2, z0, r, s))
                 emit("keyverify %s %d,%d %d %d %d" % (tok, parse_pt(Q)[0], parse_pt(Q)[1] + 1, z0, r, s))
                 emit("keyverify %s %d,%d 1 %d 1" % (tok, gx, gy, n - 1))
+            # degenerate verification inputs (always run, both backends; every verify case is also compared across backends):
+            #   u1*G + u2*Q = infinity  (Q = t*G, z = -r*t mod n; with r = x(Q) mod n, and with another r)
+            #   u1*G = infinity alone   (z = n, i.e. z = 0 mod n but non-zero), accepted and rejected signature
+            #   u1*G = u2*Q             (z = r*t mod n: the final addition is a doubling), accepted and rejected
+            #   (u2*Q = infinity alone is impossible: r is in [1, n-1] and Q is affine)
+            for t, s_ in ((1, 1), (7, n - 1), (rng.randrange(2, n), rng.randrange(2, n))):
+                Qt = cc.impl("ec_mul %s %d,%d %d" % (tok, gx, gy, t))[3:]
+                rq = parse_pt(Qt)[0] % n
+                for r_ in (rq, (rq + 1) % n or 1):
+                    z_ = (-r_ * t) % n
+                    if z_:
+                        emit("verify %s %s %d %d %d" % (tok, Qt, z_, r_, s_))
+                        if r_ == rq and (t == 7 or ctx.thorough):
+                            emit("verify %s %s %d %d %d" % (tok, Qt, z_ + n if z_ + n < two256 else z_, r_, (s_ * 3) % n or 1))
+            for t, k_ in (((3, 5), (rng.randrange(2, n), rng.randrange(2, n))) if ctx.thorough else ((rng.randrange(2, n), rng.randrange(2, 2 ** 64)),)):
+                Qt = cc.impl("ec_mul %s %d,%d %d" % (tok, gx, gy, t))[3:]
+                Rk = parse_pt(cc.impl("ec_mul %s %s %d" % (tok, Qt, k_))[3:])
+                r_ = Rk[0] % n
+                s_ = r_ * pow(k_, -1, n) % n
+                emit("verify %s %s %d %d %d" % (tok, Qt, n, r_, s_))            # u1 = 0: accepted, the point is k*Q
+                emit("verify %s %s %d %d %d" % (tok, Qt, n, r_, (s_ + 1) % n or 1))
+                # doubling: u1 = u2*t, so u1*G = u2*Q and the sum is 2*u1*G
+                u1 = k_
+                D = parse_pt(cc.impl("ec_mul %s %d,%d %d" % (tok, gx, gy, 2 * u1 % n))[3:])
+                r2 = D[0] % n
+                # u2 = u1/t, s = r2/u2, z = u1*s
+                u2 = u1 * pow(t, -1, n) % n
+                s2 = r2 * pow(u2, -1, n) % n
+                z2 = u1 * s2 % n
+                if r2 and s2 and z2:
+                    emit("verify %s %s %d %d %d" % (tok, Qt, z2, r2, s2))
+                    emit("verify %s %s %d %d %d" % (tok, Qt, z2, (r2 + 1) % n or 1, s2))
             # u1*G + u2*Q = infinity: z + r*d = 0 (mod n)  (fixed defect: used to raise TypeError)
             emit("verify %s %d,%d 1 %d 1" % (tok, gx, gy, n - 1))
             emit("verify %s %d,%d 5 %d 7" % (tok, gx, gy, n - 5))
@@ -368,7 +401,7 @@ def gen(ctx, emit):
             for r in (1, 2, 3, 4, 5, 6, 7):
                 emit("recover %s 1 %d 1 ~" % (tok, r))
             # ---- random stream
-            for _ in range(ctx.n(4, 140)):
+            for _ in range(ctx.n(2, 140)):
                 d = rng.choice([rng.randrange(1, n), rng.randrange(1, n), rng.randrange(1, 2 ** 64), n - rng.randrange(1, 1000)])
                 z = rng.choice([rng.randrange(1, two256), rng.randrange(1, two256), rng.randrange(1, n), rng.getrandbits(rng.randrange(1, 257)) or 1])
                 emit("sign %s %d %d" % (tok, d, z))
@@ -418,7 +451,7 @@ def gen(ctx, emit):
         toy += cc.toy_curves(p)
     # always-run toy curves: one with n > p (abscissas r in [p, n) have no point), one with n < p (nonce points with
     # x >= n, so that `x mod n` matters in verify and the recid bit 2 is exercised)
-    fixed = ["toy:43:41:40:0:13:53", "toy:43:6:24:0:14:37"]
+    fixed = ["toy:7:0:3:1:2:13", "toy:19:0:2:4:3:13"] + (["toy:43:41:40:0:13:53", "toy:43:6:24:0:14:37"] if ctx.thorough else [])
     for tok in fixed:
         p, ca, cb, gx, gy, n = consts(tok)
         for d in (1, 2, n - 1):
@@ -430,14 +463,14 @@ def gen(ctx, emit):
         for r in sorted({1, 2, 3, p - 1, p, p + 1, n - 2, n - 1}):
             if 1 <= r < n:
                 emit("recover %s 5 %d 3 ~" % (tok, r))
-    chosen = rng.sample(toy, ctx.n(3, 40))
+    chosen = rng.sample(toy, ctx.n(2, 40))
     for tok in chosen:
         p, ca, cb, gx, gy, n = consts(tok)
         ds = range(1, n) if (ctx.thorough and n <= 31) else sorted({1, 2, n - 1, rng.randrange(1, n)})
         for d in ds:
             emit("toy_sign %s %d %d" % (tok, d, 4 * n if (ctx.thorough or n < 20) else n + 2), "toy-table")
         for d in (list(ds)[:3] if not ctx.thorough else list(ds)[:6]):
-            if n <= 47 or ctx.thorough:
+            if n <= 31 or ctx.thorough:
                 emit("toy_verify %s %d %d" % (tok, d, rng.choice([1, d, n - 1, n + 1, rng.randrange(1, 4 * n)])), "toy-table")
         for _ in range(ctx.n(4, 30)):
             z, r, s = rng.randrange(1, 4 * n), rng.randrange(0, n + 2), rng.randrange(0, n + 2)
